@@ -42,7 +42,12 @@ package ast
 //@ axiom first-recovery: forall c *RecoveryExpr, n string :: {InFirst(c, n)} InFirst(c, n) == (InFirst(c.Expr, n) || InFirst(c.RecoverExpr, n))
 //@ axiom first-ruleref: forall c *RuleRefExpr, n string :: {InFirst(c, n)} InFirst(c, n) == (c.Name != nil && n == c.Name.Val)
 //@ axiom first-rule: forall c *Rule, n string :: {InFirst(c, n)} InFirst(c, n) == InFirst(c.Expr, n)
-//@ axiom first-throw: forall c *ThrowExpr, n string :: {InFirst(c, n)} !InFirst(c, n)
+// a throw evaluates, at the same position, the recover expression of a recovery expression for its label
+// (the innermost one active at run time, possibly in another rule): HandlerFirst(l, n) says that some
+// recovery expression of the grammar handling label l has n in the first set of its recover expression.
+// (Taken from the property, not from the code: ThrowExpr.InitialNames returns no names: known finding F13.)
+//@ spec func HandlerFirst(label string, n string) bool
+//@ axiom first-throw: forall c *ThrowExpr, n string :: {InFirst(c, n)} InFirst(c, n) == HandlerFirst(c.Label, n)
 //@ axiom first-state: forall c *StateCodeExpr, n string :: {InFirst(c, n)} !InFirst(c, n)
 //@ axiom first-andcode: forall c *AndCodeExpr, n string :: {InFirst(c, n)} !InFirst(c, n)
 //@ axiom first-notcode: forall c *NotCodeExpr, n string :: {InFirst(c, n)} !InFirst(c, n)
